@@ -103,10 +103,10 @@ func scenarios() []scenario {
 // ---- one controlled execution ---------------------------------------------------------
 
 type event struct {
-	client       int
-	input        histIn
-	call, ret    int64
-	output       histOut
+	client    int
+	input     histIn
+	call, ret int64
+	output    histOut
 }
 
 type histIn struct {
@@ -473,11 +473,13 @@ func freeRunning(r *ev.Run, i int) *p2prig.Scenario {
 }
 
 func body(r *ev.Run) {
-	r.Rule("(1) free-running: legacy full server / experimental peers against 2-4 scripted nodes that connect, announce (inv and headers, two peers at once), drop and get re-dialled, an inbound peer, and 3 concurrent HTTP readers on /network/peer, /network/peer/count, tips and headers; built with -race, every report attributed by innermost repository functions. (2) controlled scheduler at the repository interface: 12 scenarios of 2-3 submitters/readers (both extend the tip; extend vs heavier fork; two reorganising forks; same header twice; child and parent; chain vs fork; stale branch overtaking; readers during reorganisation/extensions; zero-work; orphan and late parent), depth-first enumeration of all schedules within a pre-emption bound for two-thread scenarios, seeded random schedules otherwise; after EVERY granted step, with the world stopped, the table must satisfy the structural invariant and a reader's tip must be a LONGEST row. (3) every execution's Add/GetTip history plus the final table is checked for linearizability against the reference model with porcupine. evaluations = controlled executions + free-running scenarios; distinct = distinct granted-step sequences; non-trivial = all.")
+	r.Rule("(1) free-running: legacy full server / experimental peers against 2-4 scripted nodes that connect, announce (inv and headers, two peers at once), drop and get re-dialled, an inbound peer, and 3 concurrent HTTP readers on /network/peer, /network/peer/count, tips and headers; built with -race, every report attributed by innermost repository functions. (2) controlled scheduler at the repository interface: 12 scenarios of 2-3 submitters/readers (both extend the tip; extend vs heavier fork; two reorganising forks; same header twice; child and parent; chain vs fork; stale branch overtaking; readers during reorganisation/extensions; zero-work; orphan and late parent), depth-first enumeration of all schedules within a pre-emption bound for two-thread scenarios, seeded random schedules otherwise; after EVERY granted step, with the world stopped, the table must satisfy the structural invariant and a reader's tip must be a LONGEST row. (4) free-running reorganisation storms: one submitter flips the best chain between a tall light branch and a lower heavier one while 6 readers ask for the tip (HTTP and service layer) as fast as they can - every read must name a stored header. (3) every execution's Add/GetTip history plus the final table is checked for linearizability against the reference model with porcupine. evaluations = controlled executions + free-running scenarios; distinct = distinct granted-step sequences; non-trivial = all.")
 	r.Assume("scheduling granularity = calls of repository.Headers (each one SQL statement/transaction)", "a thread blocked on a Go mutex is treated as disabled (goroutine status from runtime.Stack)", "free-running schedules are whatever the real goroutines/sockets produce under load")
 	r.Require("schedules_executed", 200)
 	r.Require("invariant_evaluations", 1000)
 	r.Require("histories_linearizable", 100)
+	r.Require("storm_reorganisations_to_a_lower_height", 100)
+	r.Require("storm_tip_reads", 1000)
 	mb.ForbiddenHeaders()
 	var e *env
 	hooks := &deco.Hooks{Before: func(op string, write bool, arg string) error {
@@ -506,6 +508,11 @@ func body(r *ev.Run) {
 			}
 		})
 		_ = si
+	}
+	// (4) free-running reorganisation storms with tip readers
+	for i := 0; i < r.Pick(4, 48); i++ {
+		caseID := fmt.Sprintf("storm/%d", i)
+		r.Do(caseID, func() { reorgStorm(r, caseID) })
 	}
 	// (1)
 	n := r.Pick(10, 150)
